@@ -345,6 +345,7 @@ func genEncCasesOpt(g *gen.G, n int, types map[string]reflect.Type, anyPrimsToo 
 
 func runC02(r *Result, d *drv.Driver, tier string, seed int64, replay string) {
 	defer drainDestFindings(r)
+	defer c02Intervals(r, d)
 	n := 6000
 	rounds := 1
 	if tier == "thorough" {
@@ -459,4 +460,33 @@ func (w failingWriter) Write(p []byte) (int, error) {
 		return w.after, fmt.Errorf("write failed")
 	}
 	return len(p), nil
+}
+
+// c02Intervals: the one item whose value is COMPUTED rather than copied - an Interval is the duration's whole seconds. Long
+// durations (from 2^24 s, where a float64 runs out of room for the nanoseconds) that end just short of a whole second, in a
+// statically typed field and in an optional one: the four value bytes are the truncated second count, as the canonical
+// serializer (Lean `canon`) computes it with integers.
+func c02Intervals(r *Result, d *drv.Driver) {
+	durs := []time.Duration{(1<<24)*time.Second + 999999999, 365*24*time.Hour - 1, (1<<31)*time.Second + 999999999, (1<<32-1)*time.Second + 999999999,
+		(1<<24+12345)*time.Second + 999999800, (1<<30)*time.Second + 999999763, 10*24*time.Hour - 1, time.Minute - 1, 1500 * time.Millisecond, (1 << 24) * time.Second, 194*24*time.Hour + 999999999}
+	var lines []string
+	var reals []string
+	for _, du := range durs {
+		v := &TDur{D: du, O: du, L: 5, T: time.Unix(1000000000, 0).UTC()}
+		real, _, _ := realEncode(v)
+		reals = append(reals, real)
+		lines = append(lines, "canon TDur "+render.Struct(v))
+	}
+	replies, err := d.AskAll(lines)
+	if err != nil {
+		r.find(Finding{Kind: "disagreement", What: "driver failure", Input: err.Error()})
+		return
+	}
+	for i, du := range durs {
+		r.eval(lines[i], true)
+		r.Stats["interval-boundary-probes"]++
+		if strings.HasPrefix(reals[i], "ok ") && reals[i] != replies[i] {
+			r.find(Finding{Kind: "violation", What: "an Interval item does not carry the duration's whole seconds", Input: map[string]string{"op": "canon", "type": "TDur", "duration": fmt.Sprintf("%d ns (%v)", int64(du), du), "value": lines[i]}, Expect: replies[i], Actual: reals[i]})
+		}
+	}
 }
